@@ -318,7 +318,7 @@ func varInitBytes(c *Ctx, pkgShort, name string) []byte {
 		var out []byte
 		for _, el := range x.Elts {
 			tv, ok := info.Types[el]
-			if !ok || tv.Value == nil {
+			if !ok || tv.Value == nil || tv.Value.Kind() != constant.Int {
 				return nil
 			}
 			v, _ := constant.Int64Val(constant.ToInt(tv.Value))
